@@ -150,7 +150,7 @@ PROPS = {
         quick=dict(runs=10000, race_runs=3500, budget_s=50), thorough=dict(runs=800000, race_runs=250000, budget_s=1500),
         rule="an instrumented copy of the current tree (yield points in merkle_patricia_trie.go, mpt_nodedb.go, mpt_node_change.go; every Lock/RLock/Unlock module-wide routed through the scheduler, the real mutexes stay the only lock state). Setup: a trie on a memory / layered / memory-over-persistent store with 0-4 entries over a pool of 2-4 paths (prefixes of one another); in 1/5 of the runs reachable nodes are then removed from the store (node loss) and the run continues on a fresh trie object. Scheduled phase: 2-4 tasks with 2-6 operations each on the SAME trie: Insert (unique values), Delete, GetNodeValueRaw, Iterate, GetChanges/GetDeletes/GetChangeCount, GetMissingNodeKeys, HasMissingNodes, SaveChanges to a PNodeDB, GetRoot. Oracles: (a) the history (invoke/return stamped with the scheduler's event sequence) plus a final read-all is checked with porcupine against a sequential map model (Illegal = violation, Unknown = inconclusive, counted, never reported); (b) the final root equals the independent root of the final content; (c) -race build under the same seeded schedules: any report inside the module is a violation; (d) no panic, no deadlock; lossy runs: reads never return a wrong value. Non-trivial: >= 1 context switch",
         state_measure="distinct interleavings: digest of the task chosen at every scheduler decision with more than one enabled task (+ total steps)",
-        assumptions=[ROCKS_ASSUMPTION, "goroutines the code spawns in the anchored files (SaveChanges' writer) are scheduled tasks of their own (simrt.Go), blocking selects there are polling loops that try their cases in source order; goroutines spawned elsewhere in the module run unscheduled while their parent waits", "writer preference of sync.RWMutex is not modelled (more schedules than the runtime allows, none that a correct program may exclude)"],
+        assumptions=[ROCKS_ASSUMPTION, "goroutines the code spawns in the anchored files (SaveChanges' writer) are scheduled tasks of their own (simrt.Go), blocking selects there are polling loops in which the case looked at first is a scheduler choice (simrt.Pick); goroutines spawned elsewhere in the module run unscheduled while their parent waits", "writer preference of sync.RWMutex is not modelled (more schedules than the runtime allows, none that a correct program may exclude)"],
     ),
     "C20": dict(
         level="exploration", components=SCHED_COMPONENTS("core/logging MemLogger/MemCore + real zap"), sched=True, race=True, env={"GOMAXPROCS": "1"},
@@ -174,13 +174,13 @@ TREE_EXTRA = ("Store kinds: memory, level(mem,mem), level(mem,persistent), persi
               "after a save produces. Path lengths up to 256 hex characters. 1 in 700 runs stores values 0-700 bytes (biased to the last dozen) "
               "below util.MPTMaxAllowableNodeSize, the largest value Insert accepts. Content is read through the trie under test, through "
               "throw-away trie objects on the same store (half of the runs) or through util.CloneMPT (1 in 8); in a third of the runs the reads "
-              "alternate between Iterate over value nodes, Iterate over all node types and IterateFrom(root). C14: a third of the runs change the trie version "
+              "alternate between Iterate over value nodes, Iterate over all node types and IterateFrom(root). A third of the merges are tried again at once when they are rejected. C14: a third of the runs change the trie version "
               "between operations. C17: 1 in 4 repairs use as donor the level store of a peer that has moved on (lower level = complete state, a trie of the next "
               "version has rewritten 1-3 keys over it).")
-ROUND_EXTRA = ("1 in 10 transactions is followed by a mid-round SaveChanges of the block's trie (1 in 20 histories store values that are byte for byte the hash preimage of a node of the current state; C04: the root saved then must still be complete on the store after the round's final save; C05: the dead nodes of that moment are recorded, and recorded again by the final save). 1 in 120 runs has one round that inserts 200-500 keys (more nodes than the 256-node batch size); 1 in 15 runs uses sparse round "
+ROUND_EXTRA = ("1 in 10 transactions is followed by a mid-round SaveChanges of the block's trie (1 in 6 histories inject one write error, nothing applied and no crash, into half of their saves: the error must be reported and the save is repeated with the same objects; 1 in 20 histories store values that are byte for byte the hash preimage of a node of the current state; C04: the root saved then must still be complete on the store after the round's final save; C05: the dead nodes of that moment are recorded, and recorded again by the final save). 1 in 120 runs has one round that inserts 200-500 keys (more nodes than the 256-node batch size); 1 in 15 runs uses sparse round "
                "numbers whose low bits repeat (jumps of 2^16 / 2^32 / 2^48); 1 in 10 rounds contains a 'sync': the complete state of the previous "
                "round is merged into the block's trie from a separate store (MergeDB back to the previous root).")
-CACHE_EXTRA = ("Value kinds: mutable byte values, trie nodes (C07), and the package's immutable statecache.String (1 in 5 runs); 1 in 8 runs draws "
+CACHE_EXTRA = ("1 in 8 runs uses names that are ambiguous when concatenated (keys k, kq, kqq; block hashes z0, qz0, qqz0, qqqz0, z1, ...). Value kinds: mutable byte values, trie nodes (C07), and the package's immutable statecache.String (1 in 5 runs); 1 in 8 runs draws "
                "values from a domain of three so that blocks rewrite their parent's value. Profiles besides the short block trees: deep chains "
                "(22-190 blocks, a key changes about once in 8-48 blocks, values and tombstones, lookups repeated through state / query / block / "
                "transaction caches; 1 in 25 runs), big blocks (300-100000 keys in one block on top of a parent, then first-touch writes and removals; "
@@ -198,7 +198,7 @@ ADDENDA = {
     "C12": "1 in 120 runs has 150-450 keys; 1 in 3000 runs exports every key of a trie with 56000-70000 keys (more than 2^17 nodes).",
     "C13": "The harness executes every history (further commits and collector passes under an abandoned checkpoint included) and only JUDGES a rollback inside the quantifier's window (exactly one commit, at most one collector pass since the latest SaveRoot). Half of the runs are round-structured: optional SaveRoot, a batch (random changes / return to exactly the checkpoint's content / delete everything / empty), commit, 0-2 collector passes, optional rollback. 1 in 120 runs commits 150-450 keys at once. 1 in 8 runs of C09/C11/C13 uses a twin-subtree key pool (2-3 prefixes x 2-3 tails, values a function of the tail: byte-identical subtrees at different positions). 1 in 1000 runs steers a commit to an exact number of new storage keys (128..2048) by repeating checkpoint / commit of n new keys / rollback with n adjusted by feedback; every rollback on the way is judged.",
     "C15": "Message-level operators additionally: pairs.relink (a subtree replaced by a nil node / hash reference / value / empty branch and the hash its parent claims for that slot rewritten to match), pairs.collapse (a whole subtree of a pre-order export replaced by a hash reference claiming the same hash and weight) and pairs.rekind (a node replaced by a node of another kind claiming the same hash).",
-    "C16": "Task operations additionally: a child trie opened on the shared trie, one insert, MergeMPTChanges (atomic put or rejected); MergeDB of a separately built trie (porcupine 'setall'); Validate/GetNodeDB/GetVersion; SaveChanges with an already cancelled context: it returns at once and the task goes on while the abandoned writer goroutine, a scheduled task of its own, still has to write. 1 in 7 runs is a judged-saves run (writes, lookups, saves and abandoned saves only): every save writes into a store of its own, and after the run the nodes found there must make up the complete trie of a root that was current at some moment between that save's call and its return.",
+    "C16": "Task operations additionally: a child trie opened on the shared trie, one insert, MergeMPTChanges (atomic put or rejected); MergeDB of a separately built trie (porcupine 'setall'); Validate/GetNodeDB/GetVersion; SaveChanges with an already cancelled context: it returns at once and the task goes on while the abandoned writer goroutine, a scheduled task of its own, still has to write. 1 in 7 runs is a judged-saves run (writes, lookups, saves and abandoned saves only): every save writes into a store of its own, and after the run the nodes found there must make up the complete trie of a root that was current at some moment between that save's call and its return. Half of the judged-saves runs reopen the trie object on the prepared state first (so that the delete list fills) and save into private copies of that state, half of those saves with deletes; a quarter of the plain saves go to a store that refuses the batch write (injected I/O error): a save that then reports success is judged like any other.",
 }
 for _k, _t in ADDENDA.items():
     PROPS[_k]["rule"] = PROPS[_k]["rule"] + " " + _t
